@@ -22,7 +22,7 @@ Ev == Log[l]
 
 TInit == /\ l = 1 /\ live = FALSE
          /\ sc = [id |-> 0, ty |-> "", val |-> 0, plan |-> <<>>] /\ pc = 1
-         /\ obj = [i \in Slots |-> NoObj] /\ wire = [x \in Syntaxes |-> NoWire] /\ dec = NoDec
+         /\ obj = [i \in Slots |-> NoObj] /\ wire = [x \in Syntaxes |-> NoWire] /\ dec = NoDec /\ fault = 0
 
 TSession == /\ l <= Len(Log) /\ Ev.a = "Session"
             /\ l' = l + 1
@@ -38,10 +38,11 @@ TSession == /\ l <= Len(Log) /\ Ev.a = "Session"
 Waived == IF "waive" \in DOMAIN Ev THEN SeqRange(Ev.waive) ELSE {}
 Stopped == "kf" \in DOMAIN Ev
 NoInput == Ev.a = "Decode" /\ Ev.rc = "NOINPUT"
-Obs == [bytes |-> IF "bytes" \in DOMAIN Ev THEN Ev.bytes ELSE OpaqueWire,
-        consumed |-> IF "consumed" \in DOMAIN Ev THEN Ev.consumed ELSE 0]
+Fld(f, dflt) == IF f \in DOMAIN Ev THEN Ev[f] ELSE dflt
+Obs == [bytes |-> Fld("bytes", OpaqueWire), consumed |-> Fld("consumed", 0), allocfailed |-> Fld("allocfailed", 0),
+        rc |-> Fld("rc", "FAIL"), wf |-> Fld("wf", FALSE) /\ "val" \in DOMAIN Ev, val |-> Fld("val", 0)]
 InOrder == Ev.id = sc.id /\ pc <= Len(sc.plan) /\ Ev.i = pc /\ Ev.a = sc.plan[pc].a
-Pending == IF ~InOrder THEN (IF Ev.a = "Crash" THEN {"crash"} ELSE {"out-of-order"})
+Pending == IF ~InOrder THEN (IF Ev.a = "Crash" THEN {"crash"} ELSE IF Ev.a = "Timeout" THEN {"timeout"} ELSE {"out-of-order"})
            ELSE Faults(sc.plan[pc], Ev) \ Waived
 
 \* the driver had nothing to decode because the preceding Encode (already judged) failed:
